@@ -1308,6 +1308,20 @@ func (c S3ApiController) PutBucketActions(ctx *fiber.Ctx) error {
 				})
 		}
 
+		if len(ownershipControls.Rules) != 1 {
+			// exactly one rule is required (also guards the index below)
+			if c.debug {
+				debuglogger.Logf("ownership control rules should be 1, got %v", len(ownershipControls.Rules))
+			}
+			return SendResponse(ctx, s3err.GetAPIError(s3err.ErrMalformedXML),
+				&MetaOpts{
+					Logger:      c.logger,
+					MetricsMng:  c.mm,
+					Action:      metrics.ActionPutBucketOwnershipControls,
+					BucketOwner: parsedAcl.Owner,
+				})
+		}
+
 		rulesCount := len(ownershipControls.Rules)
 		isValidOwnership := utils.IsValidOwnership(ownershipControls.Rules[0].ObjectOwnership, c.debug)
 		if rulesCount != 1 || !isValidOwnership {
